@@ -5,14 +5,22 @@ Model of `breezy/transform.py: _FileMover` (rename journal, `pre_delete`,
 `rollback`, `apply_deletions`) and of the phase structure of
 `InventoryTreeTransform.apply` / `GitTreeTransform.apply`, over a small POSIX
 file-system model (paths = component lists, `os.rename` with its error and
-silent-clobber behaviour, recursive `delete_any`).
+silent-clobber behaviour, recursive `delete_any`, the owner-executable bit of
+regular files and the in-place `chmod` of `_set_executability`).
+
+The insertion phase also changes the executable bit of files in place
+(`_apply_insertions` → `_set_executability` → `os.stat` + `chmod_if_possible`).
+Whether that change is written to the mover's journal (and therefore undone by
+`rollback`) is the model parameter `jc`; the harness determines it by probing
+the real code (`Generated/C13.lean`).
 -/
 namespace BreezyVerif.C13
 
 abbrev Path := List String
 
 inductive Node where
-  | file (content : String)
+  /-- a regular file: content and owner-executable bit (`st_mode & 0o100`) -/
+  | file (content : String) (exec : Bool)
   | dir
   | link (target : String)
   deriving DecidableEq, Repr
@@ -38,11 +46,15 @@ def deleteAny (fs : FS) (p : Path) : FS := fs.filter fun e => !p.isPrefixOf e.1
 
 inductive Err where
   | enoent | eexist | enotempty | einval | enotdir | eisdir | injected
+  /-- an operation the model does not describe (chmod of a directory or through a
+  symlink); the harness reports a tie break if the real code ever performs one -/
+  | unmodelled
   deriving DecidableEq, Repr
 
 def Err.toString : Err → String
   | .enoent => "ENOENT" | .eexist => "EEXIST" | .enotempty => "ENOTEMPTY"
   | .einval => "EINVAL" | .enotdir => "ENOTDIR" | .eisdir => "EISDIR" | .injected => "INJECTED"
+  | .unmodelled => "UNMODELLED"
 
 /-- the errno of a failed parent lookup: the first proper prefix of `p` that is
 missing (or a dangling symlink) gives ENOENT, a regular file gives ENOTDIR -/
@@ -50,22 +62,26 @@ def parentErr (fs : FS) (p : Path) : Err :=
   ((List.range p.length).findSome? fun i =>
     match get fs (p.take i) with
     | some .dir => none
-    | some (.file _) => some Err.enotdir
+    | some (.file _ _) => some Err.enotdir
     | _ => some Err.enoent).getD .enoent
 
-/-- `os.rename(a, b)` on POSIX: resolve the old path, then the new one.  The
-parent of an existing source is a directory on any real file system; the model
-answers with the lookup error otherwise, so that it is total on ill-formed
-states too. -/
+/-- `os.rename(a, b)` on Linux, in the order the kernel checks: both parent
+directories are resolved first, then the source is looked up, then the
+ancestor checks, then the target and the kind rules.  The parent of an existing
+source is a directory on any real file system; the model answers with the
+lookup error otherwise, so that it is total on ill-formed states too.  (The
+order and every errno branch are compared with the real `os.rename` on random
+small directories on every run.) -/
 def rename (fs : FS) (a b : Path) : Except Err FS :=
   if a = [] ∨ b = [] then .error .einval
   else if get fs a.dropLast ≠ some .dir then .error (parentErr fs a)
+  else if get fs b.dropLast ≠ some .dir then .error (parentErr fs b)
   else match get fs a with
     | none => .error .enoent
     | some na =>
-      if get fs b.dropLast ≠ some .dir then .error (parentErr fs b)
-      else if a = b then .ok fs
+      if a = b then .ok fs
       else if a.isPrefixOf b then .error .einval
+      else if b.isPrefixOf a then .error .enotempty
       else match get fs b with
         | none => if keysUnder fs b then .error .enotempty else .ok (moveL fs a b)
         | some nb =>
@@ -76,10 +92,39 @@ def rename (fs : FS) (a b : Path) : Except Err FS :=
           | _, .dir => .error .eisdir
           | _, _ => .ok (moveL (deleteAny fs b) a b)   -- silent replacement
 
+/-- set the executable bit of the entry `get` finds at `p` (first match), if it
+is a regular file -/
+def setExec : FS → Path → Bool → FS
+  | [], _, _ => []
+  | e :: rest, p, x =>
+    if e.1 = p then
+      (match e.2 with
+        | .file c _ => (e.1, Node.file c x)
+        | _ => e) :: rest
+    else e :: setExec rest p x
+
+/-- `_set_executability(path)`: `os.stat(abspath)` then `chmod_if_possible` with
+the owner-executable bit set to `x`.  Returns the new file system and the
+previous bit.  A missing path makes `os.stat` raise (it is not caught by
+`_apply_insertions`). -/
+def chmod (fs : FS) (p : Path) (x : Bool) : Except Err (FS × Bool) :=
+  match get fs p with
+  | some (.file _ old) => .ok (setExec fs p x, old)
+  | some _ => .error .unmodelled
+  | none => .error (if get fs p.dropLast = some .dir then .enoent else parentErr fs p)
+
+/-- one entry of the journal of `_FileMover` -/
+inductive JEntry where
+  /-- `os.rename(a, b)` was performed -/
+  | ren (a b : Path)
+  /-- the executable bit of `p` was changed; it was `old` before -/
+  | mode (p : Path) (old : Bool)
+  deriving DecidableEq, Repr
+
 /-- the journal of `_FileMover` -/
 structure Mover where
   fs : FS
-  past : List (Path × Path) := []
+  past : List JEntry := []
   pending : List Path := []
 
 inductive Op where
@@ -88,60 +133,118 @@ inductive Op where
   | rename (a b : Path)
   /-- `mover.pre_delete(a, b)` -/
   | preDelete (a b : Path)
+  /-- `_set_executability(p)` with new bit `x` from `_apply_insertions` -/
+  | chmod (p : Path) (x : Bool)
   deriving DecidableEq, Repr
 
-def Op.src : Op → Path | .rename a _ => a | .preDelete a _ => a
-def Op.dst : Op → Path | .rename _ b => b | .preDelete _ b => b
-def Op.isPre : Op → Bool | .rename _ _ => false | .preDelete _ _ => true
+/-- one operation of the removal / insertion phases; `.error` = the exception
+that propagates to `apply`.  A plain rename that fails with ENOENT is swallowed
+by the caller (`if e.errno != errno.ENOENT: raise`).  `jc` = the mode change is
+journalled. -/
+def Mover.step (jc : Bool) (m : Mover) : Op → Except Err Mover
+  | .rename a b =>
+    match rename m.fs a b with
+    | .ok fs' => .ok { m with fs := fs', past := m.past ++ [.ren a b] }
+    | .error e => if e = .enoent then .ok m else .error e
+  | .preDelete a b =>
+    match rename m.fs a b with
+    | .ok fs' => .ok { fs := fs', past := m.past ++ [.ren a b], pending := m.pending ++ [b] }
+    | .error e => .error e
+  | .chmod p x =>
+    match chmod m.fs p x with
+    | .ok (fs', old) => .ok { m with fs := fs', past := if jc then m.past ++ [.mode p old] else m.past }
+    | .error e => .error e
 
-/-- one mover operation; `.error` = the exception that propagates to `apply`.
-A plain rename that fails with ENOENT is swallowed by the caller
-(`if e.errno != errno.ENOENT: raise`). -/
-def Mover.step (m : Mover) (op : Op) : Except Err Mover :=
-  match rename m.fs op.src op.dst with
-  | .ok fs' =>
-    .ok { fs := fs', past := m.past ++ [(op.src, op.dst)],
-          pending := if op.isPre then m.pending ++ [op.dst] else m.pending }
-  | .error e => if e = .enoent ∧ op.isPre = false then .ok m else .error e
-
-/-- run the removal + insertion phases; `fault = some k` makes the k-th mover
-call raise before it does anything.  Returns the mover reached and the error
-raised, if any. -/
-def runOps (m : Mover) : List Op → Option Nat → Mover × Option Err
+/-- run the removal + insertion phases; `fault = some k` makes the k-th
+operation raise before it does anything.  Returns the mover reached and the
+error raised, if any. -/
+def runOps (jc : Bool) (m : Mover) : List Op → Option Nat → Mover × Option Err
   | [], _ => (m, none)
   | op :: rest, fault =>
     if fault = some 0 then (m, some .injected)
-    else match m.step op with
-      | .ok m' => runOps m' rest (fault.map (· - 1))
+    else match m.step jc op with
+      | .ok m' => runOps jc m' rest (fault.map (· - 1))
       | .error e => (m, some e)
 
+/-- undo one journal entry -/
+def undo (fs : FS) : JEntry → Except Err FS
+  | .ren a b => rename fs b a
+  | .mode p old => (chmod fs p old).map (·.1)
+
+/-- undo journal entries, newest first (the list is already reversed);
+`fault = some k` makes the k-th undo raise before it does anything.  A failing
+undo stops the rollback where it is: the result is the partially restored file
+system and the error. -/
+def rollbackRev (fs : FS) : List JEntry → Option Nat → FS × Option Err
+  | [], _ => (fs, none)
+  | j :: rest, fault =>
+    if fault = some 0 then (fs, some .injected)
+    else match undo fs j with
+      | .ok fs' => rollbackRev fs' rest (fault.map (· - 1))
+      | .error e => (fs, some e)
+
 /-- `_FileMover.rollback`: undo the journal in reverse -/
-def rollback (fs : FS) : List (Path × Path) → Except Err FS
-  | [] => .ok fs
-  | (a, b) :: rest =>
-    -- `rest` are the later renames: undo them first
-    match rollback fs rest with
-    | .ok fs' => rename fs' b a
-    | .error e => .error e
+def rollback (fs : FS) (past : List JEntry) (fault : Option Nat := none) : FS × Option Err :=
+  rollbackRev fs past.reverse fault
+
+/-- a rename finds nothing at or below its target (and is not a self-rename) -/
+def opNoClobber (fs : FS) : Op → Bool
+  | .rename a b | .preDelete a b =>
+    (match rename fs a b with
+      | .ok _ => a != b && !keysUnder fs b
+      | .error _ => true)
+  | .chmod _ _ => true
+
+/-- a `_set_executability` finds the bit already as wanted -/
+def opNoModeChange (fs : FS) : Op → Bool
+  | .chmod p x => (match get fs p with | some (.file _ old) => old == x | _ => true)
+  | _ => true
 
 /-- every rename that is executed finds nothing at or below its target -/
-def noClobber (m : Mover) : List Op → Option Nat → Bool
+def noClobber (jc : Bool) (m : Mover) : List Op → Option Nat → Bool
   | [], _ => true
   | op :: rest, fault =>
     if fault = some 0 then true
-    else match m.step op with
+    else match m.step jc op with
       | .ok m' =>
-        (match rename m.fs op.src op.dst with
-          | .ok _ => op.src != op.dst && !keysUnder m.fs op.dst
-          | .error _ => true) && noClobber m' rest (fault.map (· - 1))
+        opNoClobber m.fs op && noClobber jc m' rest (fault.map (· - 1))
       | .error _ => true
 
-/-- `apply_deletions` with a fault before the j-th deletion -/
-def runDeletions (fs : FS) : List Path → Option Nat → FS × Bool
-  | [], _ => (fs, false)
+/-- every `_set_executability` that is executed finds the bit already as wanted -/
+def noModeChange (jc : Bool) (m : Mover) : List Op → Option Nat → Bool
+  | [], _ => true
+  | op :: rest, fault =>
+    if fault = some 0 then true
+    else match m.step jc op with
+      | .ok m' =>
+        opNoModeChange m.fs op && noModeChange jc m' rest (fault.map (· - 1))
+      | .error _ => true
+
+/-- the file system with every executable bit cleared (equality "up to modes") -/
+def eraseExec (fs : FS) : FS :=
+  fs.map fun e => match e.2 with | .file c _ => (e.1, Node.file c false) | _ => e
+
+/-- remove the entry at `p` itself -/
+def removeKey (fs : FS) (p : Path) : FS := fs.filter fun e => e.1 != p
+
+/-- `osutils.delete_any(p)`: `rmdir` for a directory (NOT recursive: a directory
+that still has children fails with ENOTEMPTY), `unlink` for anything else -/
+def deleteOne (fs : FS) (p : Path) : Except Err FS :=
+  match get fs p with
+  | none => .error (if get fs p.dropLast = some .dir then .enoent else parentErr fs p)
+  | some .dir => if hasChildren fs p then .error .enotempty else .ok (removeKey fs p)
+  | some _ => .ok (removeKey fs p)
+
+/-- `apply_deletions` (also the deletion loop of `finalize`): `delete_any` on
+every path in turn, with a fault before the j-th deletion; a deletion that
+fails stops the loop.  Returns the state reached and the error, if any. -/
+def runDeletions (fs : FS) : List Path → Option Nat → FS × Option Err
+  | [], _ => (fs, none)
   | p :: rest, fault =>
-    if fault = some 0 then (fs, true)
-    else runDeletions (deleteAny fs p) rest (fault.map (· - 1))
+    if fault = some 0 then (fs, some .injected)
+    else match deleteOne fs p with
+      | .ok fs' => runDeletions fs' rest (fault.map (· - 1))
+      | .error e => (fs, some e)
 
 inductive Meta where | old | new
   deriving DecidableEq, Repr
@@ -157,20 +260,41 @@ structure Outcome where
   raised : Option Err
   rollbackFailed : Bool := false
 
+/-- the faults of one run: `mover` hits an operation of the removal / insertion
+phases, `undo` an undo step of the rollback that follows, `meta` the metadata
+update (`apply_inventory_delta` / `_apply_index_changes`, which run outside the
+`try` … `rollback`), `deletion` a deletion of `apply_deletions` -/
+structure Faults where
+  mover : Option Nat := none
+  undo : Option Nat := none
+  metaUpdate : Bool := false
+  deletion : Option Nat := none
+
 /-- `apply`: removals + insertions (rollback on any exception), then deletions
-and metadata update in the given order.  `fault1` hits a mover call, `fault2` a
-deletion. -/
-def apply (order : Order) (fs : FS) (ops : List Op) (fault1 fault2 : Option Nat) : Outcome :=
-  match runOps { fs := fs } ops fault1 with
+and metadata update in the given order. -/
+def applyF (order : Order) (jc : Bool) (fs : FS) (ops : List Op) (f : Faults) : Outcome :=
+  match runOps jc { fs := fs } ops f.mover with
   | (m, some e) =>
-    match rollback m.fs m.past with
-    | .ok fs' => { fs := fs', md := .old, raised := some e }
-    | .error _ => { fs := m.fs, md := .old, raised := some e, rollbackFailed := true }
+    match rollback m.fs m.past f.undo with
+    | (fs', none) => { fs := fs', md := .old, raised := some e }
+    | (fs', some _) => { fs := fs', md := .old, raised := some e, rollbackFailed := true }
   | (m, none) =>
-    match runDeletions m.fs m.pending fault2 with
-    | (fs', true) =>
-      { fs := fs', md := (match order with | .deletionsFirst => .old | .metadataFirst => .new),
-        raised := some .injected }
-    | (fs', false) => { fs := fs', md := .new, raised := none }
+    match order with
+    | .metadataFirst =>
+      if f.metaUpdate then { fs := m.fs, md := .old, raised := some .injected }
+      else match runDeletions m.fs m.pending f.deletion with
+        | (fs', some e) => { fs := fs', md := .new, raised := some e }
+        | (fs', none) => { fs := fs', md := .new, raised := none }
+    | .deletionsFirst =>
+      match runDeletions m.fs m.pending f.deletion with
+      | (fs', some e) => { fs := fs', md := .old, raised := some e }
+      | (fs', none) =>
+        if f.metaUpdate then { fs := fs', md := .old, raised := some .injected }
+        else { fs := fs', md := .new, raised := none }
+
+/-- `apply` with the two fault kinds the property quantifies over: `fault1` hits
+an operation of the removal / insertion phases, `fault2` a deletion -/
+def apply (order : Order) (jc : Bool) (fs : FS) (ops : List Op) (fault1 fault2 : Option Nat) : Outcome :=
+  applyF order jc fs ops { mover := fault1, deletion := fault2 }
 
 end BreezyVerif.C13
